@@ -2,7 +2,8 @@
 
 * every seeded breaking change (/verif/seeded/<id>/patch.diff, written by independent sub-agents) that this property's rules are
   expected to report (/verif/selftest/expect.json, derived from the recorded catch matrix) is applied to a scratch copy, the facts are
-  rebuilt with the driver and the rules are re-run: at least one violation must be reported;
+  rebuilt with the driver and the rules are re-run: at least one violation must be reported; the same for the reverse of repaired
+  defects kept in /verif/selftest/regress/R-*.diff (the defect returns -> the check must report it again);
 * every behaviour-preserving edit in /verif/selftest/silent/*.diff (renamed locals and parameters, if-let <-> match, extracted helpers
   and variables, reordered fns and arms, added logging) is applied the same way: the rules must stay silent.
 
@@ -62,6 +63,9 @@ def run(prop, repo):
     try:
         for sid in mutants:
             patch = os.path.join(VERIF, "seeded", sid, "patch.diff")
+            if sid.startswith("R-"):
+                # a repaired defect re-introduced: the reverse of a `fix:` commit
+                patch = os.path.join(VERIF, "selftest", "regress", sid + ".diff")
             if not os.path.exists(patch) or not _apply(repo, patch, work):
                 out["skipped"].append({"id": sid, "why": "patch does not apply to the current tree"})
                 continue
